@@ -72,7 +72,7 @@ def scenario(
                 reqs[i] = rs[i]
     sc = Scenario(shape, codes, rev=rev, token="process" if tokmask else None, total=total, reqs=reqs, resubmit=SHARD.get("resubmit"))
     sc.start()
-    sc.run([s0, s1, s2, s3, s4, s5, s6, s7, s8, s9], K)
+    sc.run([s0, s1, s2, s3, s4, s5, s6, s7, s8, s9], K, prefix=SHARD.get("prefix") or ())
     errs = sc.harness_errors()
     if errs:
         raise sched.HarnessError("; ".join(errs)[:500])
@@ -137,17 +137,24 @@ def scenario(
 
 def conditions(tier):
     conds = []
-    K = 6 if tier == "quick" else 10
+    K = 4 if tier == "quick" else 7
     tmo = 600 if tier == "quick" else 3000
     shapes = ["one", "chain2", "indep2", "chain3", "fork3", "join3"] if tier == "quick" else ["one", "chain2", "indep2", "chain3", "fork3", "join3", "indep3", "mixed3", "diamond4", "chain4"]
+    heavy = ("indep2", "join3", "indep3", "mixed3", "diamond4", "fork3", "chain4")
+
+    def add(c, sh):
+        if sh in heavy:
+            conds.extend(schedlib.with_prefixes(c, 2 if tier == "quick" else 3))
+        else:
+            conds.append(c)
+
     for sh in shapes:
-        n = len(schedlib.SHAPES[sh])
-        conds.append({"name": f"plain/{sh}", "func": "scenario", "shard": {"shape": sh, "K": K}, "timeout": tmo})
-    tok = [("indep2", [1, 1]), ("chain2", [1, 1]), ("indep2", [1, 0]), ("join3", [1, 1, 0]), ("indep3", [1, 1, 1])]
+        add({"name": f"plain/{sh}", "func": "scenario", "shard": {"shape": sh, "K": K}, "timeout": tmo}, sh)
+    tok = [("indep2", [1, 1]), ("chain2", [1, 1]), ("indep2", [1, 0]), ("join3", [1, 1, 0])]
     if tier == "thorough":
-        tok += [("fork3", [0, 1, 1]), ("chain3", [1, 0, 1]), ("diamond4", [0, 1, 1, 0])]
+        tok += [("indep3", [1, 1, 1]), ("fork3", [0, 1, 1]), ("chain3", [1, 0, 1]), ("diamond4", [0, 1, 1, 0])]
     for sh, mask in tok:
-        conds.append({"name": f"token/{sh}-{''.join(map(str, mask))}", "func": "scenario", "shard": {"shape": sh, "K": K, "token": mask}, "timeout": tmo})
+        add({"name": f"token/{sh}-{''.join(map(str, mask))}", "func": "scenario", "shard": {"shape": sh, "K": K, "token": mask}, "timeout": tmo}, sh)
     for sh, idx in (("one", 0), ("chain2", 0), ("chain2", 1), ("indep2", 1)):
-        conds.append({"name": f"resubmit/{sh}-{idx}", "func": "scenario", "shard": {"shape": sh, "K": K, "resubmit": idx}, "timeout": tmo})
+        add({"name": f"resubmit/{sh}-{idx}", "func": "scenario", "shard": {"shape": sh, "K": K, "resubmit": idx}, "timeout": tmo}, sh)
     return conds
